@@ -54,6 +54,13 @@ Record handler := mkHandler {
   h_price : list price_use               (* every price call site it can reach, and each link to it *)
 }.
 
+(* an owner comparison of a handler: the compared field ("LendAsset.Owner") and the chain of lookups
+   from the compared record back to the message: (lookup, keys) with keys "msg.<Field>",
+   "<RecordType>.<Field>" (a field of the record fetched by the NEXT link) or "?<text>" *)
+Record owner_cmp := mkOwnerCmp {
+  oc_handler : string; oc_field : string; oc_chain : list (string * list string)
+}.
+
 Record msg_type := mkMsgType {
   mt_module : string; mt_name : string; mt_signer : option string;
   mt_ids : list string;                  (* uint64 fields named ..Id / ..ID *)
